@@ -30,6 +30,11 @@ const (
 	asciiMaxChar        = 127
 )
 
+// maxQualityDenominator bounds the precision kept for a q-value: fractional
+// digits beyond it are consumed but ignored, so that arbitrarily long q-values
+// cannot overflow the accumulators (RFC 7231 allows at most 3 digits).
+const maxQualityDenominator = 1_000_000_000_000_000
+
 func init() {
 	// OCTET      = <any 8-bit sequence of data>
 	// CHAR       = <any US-ASCII character (octets 0 - 127)>
@@ -295,8 +300,10 @@ func expectQuality(s string) (q float64, rest string) {
 		if b < '0' || b > '9' {
 			break
 		}
-		n = n*10 + int(b) - '0'
-		d *= 10
+		if d < maxQualityDenominator {
+			n = n*10 + int(b) - '0'
+			d *= 10
+		}
 	}
 	return q + float64(n)/float64(d), s[i:]
 }
